@@ -50,7 +50,7 @@ pub static PLANS: &[PropPlan] = &[PropPlan {
     sims: &[SimPlan { sim: "lazy", quick_runs: 1_500_000, thorough_runs: 20_000_000 }],
     rule: "each run draws a well-formed document model-first (every JSON type incl. bare literals, escaped and unescaped strings, number- and literal-looking strings), renders it with drawn whitespace/escapes while recording every value's span, obtains lazy handles by drawn routes (get on str/slice/Bytes/FastStr/String, get_unchecked, get_many, array/object iterators, serde borrowed field, from_str::<LazyValue>, from_str::<OwnedLazyValue>, From<LazyValue>, to_lazyvalue, owned struct field, From<bool>/From<()>), then runs a drawn history of 2-24 steps over a pool of handles: full accessor reads, child handles, clone, borrowed-to-owned, Value::try_from, take, as_array_mut/as_object_mut + Vec operations, get_mut / pointer_mut + assign or take, drop; after every step every live handle is re-serialized (to_string, to_vec, Display, embedded in a struct) and compared with its model (raw text verbatim for untouched parts). Non-trivial = at least one mutation happened; distinct = distinct hash of the rendered trace",
     assumptions: &[
-        "documents have no duplicate keys; number literals are ones whose classification is unambiguous (C07 owns the corner cases)",
+        "one run in four generates documents that repeat member names (well-formed per RFC 8259): a lookup by key then means the first member of that name, as the DOM of the raw text answers, and iteration is compared position by position; get_many is not used on such documents (it visits every member of a repeated name, the multi-path API's own semantics); number literals come from the full RFC grammar incl. digit runs longer than 32 bytes",
         "a clone of an owned lazy value whose cache may have been loaded is allowed to serialize either as its raw text or as its one-level parsed form (children verbatim, scalars by value); everything else is compared byte for byte",
         "as_raw_number on a number may be Some(literal) or None (the DOM only keeps raw numbers on request); on anything else it must be None",
     ],
